@@ -14,6 +14,7 @@ C10_SIG = {
     "R_v_snapshot": "vars:included-task-gets-snapshot-of-parent-vars",
     "R_v_leak": "vars:included-file-vars-merged-into-parent-globals",
     "R_v_eager": "vars:include-statement-vars-templated-at-read-time",
+    "R_v_osfirst": "vars:include-statement-template-sees-os-env-over-including-files-vars",
     "R_v_cache": "vars:dynamic-var-cache-keyed-by-text-only",
 }
 
@@ -26,7 +27,14 @@ def sig_c10(f):
     if k == "R_v_other":
         return "vars:unexplained:depth=%s:sites=%s:mode=%s" % (inp.get("depth"), _sites(inp), inp.get("mode"))
     if k == "R_e_mon":
-        return "env:documented-order:exp=%s:sites=%s" % (inp.get("exp"), _sites(inp))
+        # which documented place should have supplied the value, and how it was written
+        sites = inp.get("sites") or []
+        expected = next((s_ for s_ in ("tenv", "tdot1", "tdot2", "genv", "gdot1", "gdot2") if s_ in sites), "none")
+        if "os" in sites and not inp.get("exp"):
+            expected = "os"
+        shs = (inp.get("genv_sh") or []) + (inp.get("tenv_sh") or [])
+        kind = "sh" if shs else "literal"
+        return "env:documented-order:exp=%s:os=%s:expected=%s:values=%s" % (inp.get("exp"), "os" in sites, expected, kind)
     if k == "R_v_agree":
         return "vars:model-disagrees-with-implementation"
     if k == "R_e_agree":
@@ -63,9 +71,12 @@ def sig_c11(f):
         ch = _changed_defs(inp)
         if ch and all(c.endswith("/defer") for c in ch):
             return "defer:rendered-entry-written-into-shared-definition"
-        if ch and not any(c.endswith("/defer") for c in ch):
+        varblocks = ("vars", "env", "includevars", "includedtaskfilevars", "callvars")
+        if ch and all(c.split("/")[-1] in varblocks for c in ch):
+            return "vars:definition-of-a-variable-rewritten-in-the-shared-taskfile"
+        if ch and not any(c.endswith("/defer") or c.split("/")[-1] in varblocks for c in ch):
             return "matrix-ref:resolved-list-written-into-shared-row"
-        return "defs:shared-definition-changed:" + ",".join(c.split("/")[-1] for c in ch[:4])
+        return "defs:shared-definition-changed:" + ",".join(sorted(set(c.split("/")[-1] for c in ch))[:4])
     if k == "R_n_other":
         return "ni:unexplained:parallel=%s:tasks=%s" % (inp.get("parallel"), len(inp.get("tasks") or []))
     if k == "R_n_agree":
@@ -85,14 +96,14 @@ PROPS = {
         # statements about the tree as it is: the "flag is repaired" premises discharged against Extracted.Facts
         more_src=["Properties/C10Current.v"],
         support=["Vars/Model.vo", "Vars/Proofs.vo", "Vars/ProofsSites.vo", "Vars/ProofsEnv.vo"], run_targets=["Run/VarsCases.vo"],
-        drivers=[dict(name="vars", extra="prop=C10", n_quick=1152, n_thorough=256 * 24, shard=256,
+        drivers=[dict(name="vars", extra="prop=C10", n_quick=1408, n_thorough=256 * 24, shard=256,
                       results={"R_v_agree": "agree", "R_e_agree": "agree",
-                               "R_v_snapshot": "mon", "R_v_leak": "mon", "R_v_eager": "mon", "R_v_cache": "mon",
+                               "R_v_snapshot": "mon", "R_v_leak": "mon", "R_v_eager": "mon", "R_v_osfirst": "mon", "R_v_cache": "mon",
                                "R_v_other": "mon", "R_e_mon": "mon"})],
         signature=sig_c10,
         rule="cases: (v) one name defined at a subset of the sites {OS env, root vars, CLI NAME=value, include-statement vars, included-Taskfile vars, call vars, task vars, special-variable name} "
              "for a task at include depth 0/1/2; shards 0-2 enumerate all 256 subsets with literal values per depth, later shards draw subsets with value kinds literal / template of the same or another name / sh: / ref:; "
-             "(e) one name at a subset of {OS, global env, global dotenv x2, task dotenv x2, task env} with and without TASK_X_ENV_PRECEDENCE=1, shard 3 enumerates all 128x2. "
+             "(e) one name at a subset of {OS, global env, global dotenv x2, task dotenv x2, task env} with and without TASK_X_ENV_PRECEDENCE=1, shard 3 enumerates all 128x2 with literal values, shard 4 the same with the env: entries written as sh: commands. "
              "Each case is a Taskfile tree on disk run by the real task binary; probes print {{.N}} / $N. "
              "agree: printed values = model E with the layer order, cache key and merge facts extracted from /repo; mon: printed values = documented order (mon_vars / mon_env, the functions of Properties/C10.v). "
              "A false monitor is attributed in Coq to the smallest set of modelled code properties whose repair yields the documented values. "
@@ -112,9 +123,9 @@ PROPS = {
                                "R_n_own_dir": "mon", "R_n_own_env": "mon", "R_n_own_dirlate": "mon", "R_n_dirlate": "mon", "R_n_defs": "mon"})],
         signature=sig_c11,
         rule="cases: a generated root Taskfile with 2-4 tasks (dir: one of three, sh: variables / env entries with equal text 'pwd', 'echo x$VR', 'echo s$TASK', 'echo y$VQ', callers of a for: matrix: ref task with different lists, callers of a task with two templated defer: entries (a command and a task call) with different vars, "
-             "Taskfile-level vars / env that refer to the per-task special variables TASK / ALIAS as template and as sh:); "
+             "Taskfile-level vars / env that refer to the per-task special variables TASK / ALIAS as template, as sh: reading $TASK and as sh: whose TEXT is a template, task-level sh: vars with templated text); "
              "the target task is run alone in a fresh Executor and after (or, Parallel, together with) a random prefix of the other tasks in ONE Executor - by one Run call, or through a combining task with cmds:, a for: loop or (concurrently) deps: -; probe lines incl. the output of deferred commands compared (mon_same), "
-             "matrix rows and every field of the defer: entries of the shared task definitions dumped before and after (mon_defs), alone values compared with the shell's value in the task's own dir/env (own). "
+             "every variable (value, sh: text, ref) of the Taskfile-level and per-task var/env/include blocks and of call vars, matrix rows and every field of the defer: entries of the shared task definitions dumped before and after (mon_defs), alone values compared with the shell's value in the task's own dir/env (own). "
              "agree: model E's compile_seq with the extracted cache key and matrix-write fact reproduces both runs (parallel: every printed value is that of some order). "
              "Plus one stress run per check: 8 goroutines x N CompiledTask calls of the matrix task with different lists, counting compilations that got another call's items. "
              "non-trivial = the target prints at least one probe; distinct = distinct (Taskfile, order, outputs)",
